@@ -2,8 +2,10 @@ package main
 
 import (
 	"fmt"
+	"go/token"
 	"go/types"
 	"math"
+	"math/big"
 	"strings"
 
 	"golang.org/x/tools/go/ssa"
@@ -150,6 +152,21 @@ func init() {
 		r.noteAssumption("wall clock (time.Now) is a concrete counter in this harness: it only feeds logging/flush timing")
 		return nil
 	}
+	harnessAPI["vSymU16R"] = func(r *Run, fr *frame, args []Value) Value {
+		t := r.symVar(argStr(fr, args[0]), 16)
+		if r.realBacked == nil {
+			r.realBacked = map[string]bool{}
+		}
+		r.realBacked[t.name] = true
+		r.noteAssumption("real-backed samples (vSymU16R): the 16-bit value is only read through int->float conversion, where it is a real variable over the type's interval (integrality not used: the checked identities are polynomial)")
+		return t
+	}
+	harnessAPI["vRealEq"] = func(r *Run, fr *frame, args []Value) Value {
+		return r.floatCmp(fr, token.EQL, args[0].(Float), args[1].(Float))
+	}
+	harnessAPI["vRealLe"] = func(r *Run, fr *frame, args []Value) Value {
+		return r.floatCmp(fr, token.LEQ, args[0].(Float), args[1].(Float))
+	}
 	harnessAPI["vStubFunc"] = func(r *Run, fr *frame, args []Value) Value {
 		if r.stubFuncs == nil {
 			r.stubFuncs = map[string]Value{}
@@ -234,7 +251,16 @@ func init() {
 			return Float{v: math.Sqrt(x.v)}
 		}
 		if x.t != nil {
-			return Float{t: r.tt.UF("sqrt", SReal, x.t, nil)}
+			y := r.tt.UF("sqrt", SReal, x.t, nil)
+			if r.eng.cfg.RealFloats {
+				// idealised square root: for x >= 0, y >= 0 and y*y = x (x < 0 would be NaN: left unconstrained)
+				zero := r.tt.RConst(new(big.Rat))
+				nonneg := r.tt.RBin(OpRLe, zero, x.t)
+				ax := r.tt.And(r.tt.RBin(OpRLe, zero, y), r.tt.Eq(r.tt.RBin(OpRMul, y, y), x.t))
+				r.addPC(r.tt.Or(r.tt.Not(nonneg), ax))
+				r.noteAssumption("math.Sqrt is the exact real square root (y >= 0, y*y = x for x >= 0)")
+			}
+			return Float{t: y}
 		}
 		return Float{unk: true}
 	}, "math.Sqrt", "math.sqrt")
